@@ -86,6 +86,9 @@ def cases(tier, seed):
            dict(n=5, blocks=[1], deg="none", dtypes="rr", mode="herm", fd=[], solver="kpm-aux", total=2, seed=seed),
            dict(n=6, blocks=[1, 1], deg="none", dtypes="rc", mode="herm", fd=[], solver="kpm-aux", total=2, seed=seed),
            dict(n=6, blocks=[1], deg="none", dtypes="cc", mode="herm", fd=[], solver="kpm-aux", total=2, seed=seed),
+           dict(n=5, blocks=[1], deg="none", dtypes="cc", mode="herm", fd=[], solver="kpm", total=2, seed=seed, h0repr="dense"),
+           dict(n=5, blocks=[1, 1], deg="none", dtypes="cr", mode="herm", fd=[], solver="kpm-atol", total=2, seed=seed, h0repr="dense"),
+           dict(n=5, blocks=[2], deg="none", dtypes="cc", mode="herm", fd=[], solver="kpm", total=2, seed=seed, h0repr="csc"),
            dict(n=6, blocks=[1, 1], deg="none", dtypes="cr", mode="herm", fd=[], solver="kpm-aux", total=2, seed=seed)]
     if not qk:
         kpm += [dict(n=6, blocks=[1, 2], deg="none", dtypes="rc", mode="herm", fd=[], solver="kpm", total=3, seed=seed),
@@ -288,7 +291,9 @@ def run_case(case):
         maxscale = max(maxscale, sc)
         if not np.isfinite(got).all():
             V.append(f"{name}[{i},{j},{order}] not finite")
-        elif np.abs(got - want).max() > tol * sc * (10 ** order if "kpm" in case["solver"] else 1) and not kpm_warned:
+        elif np.abs(got - want).max() > tol * sc * (10 ** order if "kpm" in case["solver"] else 1):
+            # (a convergence warning does not excuse a wrong result here: none of these small problems restricts the
+            # moment budget, so the expansion of a well-posed problem converges)
             V.append(f"{name}[{i},{j},{order}] of the implicit run differs from the embedded explicit result by {np.abs(got - want).max():.2e}")
         if order >= 2 and np.abs(want).max() > 1e-9 and (i == nb or j == nb or name == "H_tilde"):
             nontrivial = True
